@@ -718,8 +718,10 @@ func (m *Model) applyTx(ws *MState, ti *TxInfo, r *abci.ResponseDeliverTx, h int
 		req := pl.ReqAmt.ToBig()
 		rw := ws.Rewards[from]
 		if rw == nil {
-			issue("C13", "withdraw-without-reward-accepted", "withdrawal by an account that never earned a reward")
-			rw = m.rewardRec(ws, from)
+			if req.Sign() != 0 {
+				issue("C13", "withdraw-without-reward-accepted", "withdrawal by an account that never earned a reward")
+			}
+			rw = m.rewardRec(ws, from) // a withdrawal of nothing from nothing is within "only up to that amount"
 		}
 		if req.Cmp(rw.Cumulated) > 0 {
 			// warm-up blocks: the issuance of this block is only known up to the admissible range (see Step)
